@@ -42,7 +42,7 @@ def main():
         runner = "/venv/bin/python -W ignore %s" if demo and demo.endswith(".py") else "bash %s"
         # demo without the change
         if demo:
-            rel = os.path.join("_seeded", os.path.basename(os.path.abspath(src)))
+            rel = "_seed"   # the sub-agents write their demonstration for <tree>/_seed/
             os.makedirs(os.path.join(wt, rel), exist_ok=True)
             for f in os.listdir(src):
                 if os.path.isfile(os.path.join(src, f)):
